@@ -4,6 +4,7 @@ import (
 	"encoding/json"
 	"errors"
 	"fmt"
+	"regexp"
 	"strings"
 
 	"github.com/verily-src/fhirpath-go/fhirpath"
@@ -151,6 +152,9 @@ func runC16(env *core.Env) {
 			}
 		}
 	}
+	if env.Shard == 0 {
+		c16Discrimination(env, table)
+	}
 	// specification reachability + fingerprints
 	for _, sp := range specList {
 		i++
@@ -159,6 +163,54 @@ func runC16(env *core.Env) {
 		}
 		c16Spec(env, sp)
 	}
+}
+
+// c16Discrimination is an audit of the fingerprints themselves: for an implemented function f and any other
+// table name g that accepts the same argument count, f's fingerprints with the call renamed to g must not all
+// stay true - otherwise binding f to g's implementation would go unnoticed. Undiscriminated pairs are listed in
+// the evidence (extra.undiscriminated); they do not decide the verdict.
+func c16Discrimination(env *core.Env, table []tableEntry) {
+	in, eo := stdInputs()
+	co := []fhirpath.CompileOption{compopts.WithExperimentalFuncs()}
+	weak := []string{}
+	pairs := 0
+	for _, sp := range specList {
+		if !sp.Impl {
+			continue
+		}
+		re := regexp.MustCompile(`(^|[^A-Za-z])` + sp.Name + `\(`)
+		for _, n := range sp.Counts {
+			fps := sp.Finger[n]
+			if len(fps) == 0 {
+				continue
+			}
+			for _, g := range table {
+				if g.Name == sp.Name || n < g.Min || n > g.Max || g.Name == "convertToDateTime" && sp.Name == "convertsToDateTime" {
+					// (convertToDateTime is the repository's older spelling of convertsToDateTime: same function)
+					continue
+				}
+				pairs++
+				allTrue := true
+				for _, fp := range fps {
+					alt := re.ReplaceAllString(fp, "${1}"+g.Name+"(")
+					r := fx.Eval(env, alt, in, co, eo)
+					if r.Bool3() != "true" {
+						allTrue = false
+						break
+					}
+				}
+				if allTrue {
+					weak = append(weak, fmt.Sprintf("%s/%d~%s", sp.Name, n, g.Name))
+				}
+			}
+		}
+	}
+	env.SetExtra("binding_pairs_audited", pairs)
+	env.SetExtra("undiscriminated", weak)
+	for range weak {
+		env.Cover("undiscriminated-binding-pair")
+	}
+	env.Cover("binding-audit")
 }
 
 func sortStrings(s []string) {
